@@ -246,13 +246,13 @@ def unwrapAliases : Ty → Ty
   | t => t
 
 /-- the class names a python_types module binds: `class <fmt_class(name)>` per data type, and
-`<alias name> = <class>` for every alias of a user-defined type (`_generate_alias_definition`) -/
+`<fmt_class(alias name)> = <class>` for every alias of a user-defined type (`_generate_alias_definition`) -/
 def moduleBindings (ns : Namespace) : List (Name × Ref) :=
   ns.dataTypes.map (fun n => (fmtClass n, (ns.name, n))) ++
   ns.aliases.filterMap fun (n, t) =>
     match unwrapAliases t with
-    | .struct a b => some (n, (a, b))
-    | .union a b => some (n, (a, b))
+    | .struct a b => some (fmtClass n, (a, b))
+    | .union a b => some (fmtClass n, (a, b))
     | _ => none
 
 /-- `__init__` parameters after `self` of the class generated for a struct (`_generate_struct_class_init`; every
@@ -318,6 +318,7 @@ structure ClientModule where
   deriving Repr, Inhabited
 
 inductive GenErr where
+  | multilineDefault (field : Name)            -- AssertionError of `emit`: 'String to emit cannot contain newline strings.'
   | nameConflict (ns : Name)                   -- RuntimeError of `check_route_name_conflict`
   | unhandledArgType (ns route : Name)         -- AssertionError 'Unhandled request type'
   | defaultWithoutNamespace (field : Name)     -- `_generate_python_value(None, <TagRef>)`: AttributeError
@@ -334,12 +335,32 @@ def routeNameConflict (ns : Namespace) : Bool :=
       if seen.contains n then true else go (n :: seen) rs
   go [] ns.routes
 
+/-- `\s` / `str.splitlines` on ASCII -/
+def isWs (c : Char) : Bool :=
+  c == ' ' || c == '\t' || c == '\n' || c == '\r' || c == '\x0b' || c == '\x0c' || c == '\x1c' || c == '\x1d' || c == '\x1e' ||
+  c == '\x1f'
+def isLineBreak (c : Char) : Bool :=
+  c == '\n' || c == '\r' || c == '\x0b' || c == '\x0c' || c == '\x1c' || c == '\x1d' || c == '\x1e'
+
+/-- `'\n' in fmt_obj(s)` = `'\n' in pprint.pformat(s, width=1)`: pprint breaks a string after every run of
+whitespace that is followed by something else, and after every line break that is not at its end. The text then
+goes through `emit`, which refuses it. -/
+def pformatWraps : Name → Bool
+  | [] => false
+  | [_] => false
+  | a :: b :: rest =>
+    if a == '\r' && b == '\n' then !rest.isEmpty || pformatWraps (b :: rest)
+    else if isLineBreak a then true
+    else if isWs a && !isWs b then true
+    else pformatWraps (b :: rest)
+
 /-- `_generate_python_value(ns, value)` with `ns = field.data_type.namespace` for user-defined field types -/
 def genPythonValue (fieldName : Name) (ns : Option Name) : Lit → Except GenErr Dflt
   | .tag _ uname tag =>
     match ns with
     | some n => .ok (.tagAttr (fmtNamespace n) (fmtClass uname) (fmtVar tag))
     | none => .error (.defaultWithoutNamespace fieldName)
+  | .str s => if pformatWraps s then .error (.multilineDefault fieldName) else .ok (.lit (.str s))
   | l => .ok (.lit l)
 
 /-- one field of a struct argument in `_generate_route_method_decl` (the IR has no aliases any more) -/
@@ -707,6 +728,13 @@ def defaultsWellTyped (api : Api) (r : Ref) : Bool :=
   (declFields api r).all fun f =>
     match f.dflt with
     | some (.tag uns uname _) => specUnalias f.ty == .union uns uname
+    | _ => true
+
+/-- no string default that `pprint.pformat(width=1)` wraps (python_client then dies in `emit`) -/
+def defaultsPrintable (api : Api) (r : Ref) : Bool :=
+  (declFields api r).all fun f =>
+    match f.dflt with
+    | some (.str s) => !pformatWraps s
     | _ => true
 
 /-- no field type is an alias of a nullable type (then python_types and python_client agree on which fields
